@@ -36,14 +36,24 @@ TREE_SRC = r'''
 import os, subprocess, sys, time
 W, ident, depth, fanout, root_sleep, child_sleep = sys.argv[1], sys.argv[2], int(sys.argv[3]), int(sys.argv[4]), float(sys.argv[5]), float(sys.argv[6])
 role = sys.argv[7] if len(sys.argv) > 7 else "root"
+threaded = len(sys.argv) > 8 and sys.argv[8] == "threaded"
 pf = os.path.join(W, "pids." + ident)
 fd = os.open(pf, os.O_WRONLY | os.O_APPEND | os.O_CREAT, 0o644)
 os.write(fd, ("%d %d %s\n" % (os.getpid(), os.getppid(), role)).encode()); os.close(fd)
 kids = []
-if depth > 0:
+def spawn():
     for k in range(fanout):
         kids.append(subprocess.Popen([sys.executable, "-S", os.path.abspath(__file__), W, ident, str(depth - 1), str(fanout),
-                                      str(root_sleep), str(child_sleep), "child"], stdout=subprocess.DEVNULL))
+                                      str(root_sleep), str(child_sleep), "child"] + (["threaded"] if threaded else []),
+                                     stdout=subprocess.DEVNULL))
+    if threaded:
+        time.sleep(child_sleep + root_sleep)     # the thread that forked the children stays alive
+if depth > 0:
+    if threaded:
+        import threading
+        threading.Thread(target=spawn, daemon=True).start()
+    else:
+        spawn()
 if role == "root":
     want = sum(fanout ** d for d in range(depth + 1))
     t0 = time.time()
@@ -153,13 +163,15 @@ def direct_part(chk, exprs):
         fan = rng.randint(1, 2) if depth < 3 else 1
         kind = rng.choice(["timeout", "timeout", "in-time", "no-limit"])
         limit = (rng.choice([1, 2]) if depth < 2 else 2) if kind != "no-limit" else -1
-        scen.append(dict(id="d%d" % i, depth=depth, fanout=fan, kind=kind, limit=limit,
+        scen.append(dict(id="d%d" % i, depth=depth, fanout=fan, kind=kind, limit=limit, threaded=(i % 4 == 1 and depth > 0),
                          root_sleep=(30.0 if kind == "timeout" else rng.choice([0.1, 0.4])),
                          child_sleep=(60.0 if kind == "timeout" else 0.3)))
 
     def one(sc):
         cmd = "%s -S %s %s %s %d %d %s %s" % (core.PY, os.path.join(W, "tree.py"), W, sc["id"], sc["depth"], sc["fanout"],
                                                sc["root_sleep"], sc["child_sleep"])
+        if sc.get("threaded"):
+            cmd += " root threaded"       # children are forked by a thread that is not the main thread
         t0 = time.time()
         tl.scen = sc["id"]
         try:
@@ -184,7 +196,7 @@ def direct_part(chk, exprs):
     skipped = []
     try:
         for sc in done:
-            case = {k: sc[k] for k in ("id", "depth", "fanout", "kind", "limit", "root_sleep")}
+            case = {k: sc[k] for k in ("id", "depth", "fanout", "kind", "limit", "root_sleep", "threaded")}
             rc, out, _ = sc["result"]
             want = sum(sc["fanout"] ** k for k in range(sc["depth"] + 1))
             if len(sc["pids"]) != want:
